@@ -3,13 +3,15 @@
    Model/OpsCxx.v and evaluate model, legacy model and spec on the same input
    so the harness gets all of them from one call. *)
 From Tx Require Import Lib.Base Lib.Sexp.
-From Tx Require Model.OpsC18.
+From Tx Require Model.OpsC18 Model.OpsC01 Model.OpsSpec.
 Local Open Scope Z_scope.
 
 Definition run_op (s : sexp) : sexp :=
   match s with
   | SList (SNum op :: args) =>
       match op with
+      | 1 => OpsC01.op args
+      | 2 => OpsSpec.op args
       | 18 => OpsC18.op args
       | _ => bad
       end
